@@ -297,13 +297,13 @@ pub fn property() -> Property {
         ],
         health: vec![],
         subs: vec![
-            prop_sub("acc.predicate_data", 12_000, 600_000, |_| data_case(), oracle),
-            prop_sub("acc.addresses", 2_000, 100_000, |_| address_case(), oracle),
-            prop_sub("acc.predicate_exists", 6_000, 300_000, |_| pex_case(), oracle),
+            prop_sub("acc.predicate_data", 72_000, 600_000, |_| data_case(), oracle),
+            prop_sub("acc.addresses", 12_000, 100_000, |_| address_case(), oracle),
+            prop_sub("acc.predicate_exists", 36_000, 300_000, |_| pex_case(), oracle),
             enum_sub("cry.sha256_lengths", sha_items, oracle),
-            prop_sub("cry.sha256", 6_000, 300_000, |_| sha_case(), oracle),
-            prop_sub("cry.ed25519", 3_000, 100_000, |_| ed_case(), oracle),
-            prop_sub("cry.secp256k1", 3_000, 100_000, |_| secp_case(), oracle),
+            prop_sub("cry.sha256", 36_000, 300_000, |_| sha_case(), oracle),
+            prop_sub("cry.ed25519", 18_000, 144_000, |_| ed_case(), oracle),
+            prop_sub("cry.secp256k1", 18_000, 144_000, |_| secp_case(), oracle),
             enum_sub("acc_cry.missing_operands", short_stack_items, oracle),
         ],
     }
